@@ -37,8 +37,8 @@ RULE = ('one run = one seeded history through a live connection on a DB '
         'ValueError; one evaluation = one historical open; non-trivial = '
         'the bound lies before the last transaction; distinct = (kind, '
         'history hash, form, index)')
-BUDGET = {'quick': {'runs': 1200, 'wall': 300, 'chunk': 10},
-          'thorough': {'runs': 40000, 'wall': 3000, 'chunk': 20}}
+BUDGET = {'quick': {'runs': 4000, 'wall': 300, 'chunk': 10},
+          'thorough': {'runs': 300000, 'wall': 1800, 'chunk': 50}}
 ASSUMPTIONS = [
     'points older than the last pack are not opened (the property excludes '
     'them)',
